@@ -35,7 +35,11 @@ type c05Spec struct {
 	Hooks         []*hookRule `json:"hooks,omitempty"`
 	WaitHit       string      `json:"wait_hit,omitempty"` // pair plans: latch the driver waits for before it triggers the stop
 	DoneStorm     *doneStorm  `json:"done_storm,omitempty"`
-	NeverReturn   bool        `json:"never_return,omitempty"`
+	// FailStart: modules (module management on) that are not enabled at Start. Afterwards
+	// they are enabled; the first ManageModules pass runs their start routine, which
+	// launches its cycle-1 items and then fails; a second pass starts them successfully.
+	FailStart   []string `json:"fail_start,omitempty"`
+	NeverReturn bool     `json:"never_return,omitempty"`
 }
 
 // doneStorm: before any work item is launched, N signalled microtasks of a module are
@@ -84,10 +88,11 @@ type c05Item struct {
 	FromStart bool   `json:"from_start,omitempty"` // launched from inside the module's start function
 	SrcMod    string `json:"src_mod,omitempty"`
 	DoneCalls int    `json:"done_calls,omitempty"`
-	Restarts  int    `json:"restarts,omitempty"` // service worker: leading invocations that return an error
-	Cycle     int    `json:"cycle"`              // start cycle of the module that launches the item (1 or 2)
-	Never     bool   `json:"never,omitempty"`    // never returns (stop-timeout path)
-	AtStop    bool   `json:"at_stop,omitempty"`  // submitted by a harness goroutine the moment the module's context was cancelled
+	Restarts  int    `json:"restarts,omitempty"`  // service worker: leading invocations that return an error
+	Cycle     int    `json:"cycle"`               // start cycle of the module that launches the item (1 or 2)
+	Never     bool   `json:"never,omitempty"`     // never returns (stop-timeout path)
+	AtStop    bool   `json:"at_stop,omitempty"`   // submitted by a harness goroutine the moment the module's context was cancelled
+	FromPrep  bool   `json:"from_prep,omitempty"` // launched from inside the module's prep function (gets the module's initial context)
 	mod       *c05Mod
 }
 
@@ -228,8 +233,10 @@ func (h *c05H) run() {
 			st := m.Status()
 			h.log.Rec("notify", m.Name, "", map[string]any{"status": int(st), "pre": pre})
 		})
-		for _, m := range h.mods {
-			m.Enable()
+		for n, m := range h.mods {
+			if !contains(sp.FailStart, n) {
+				m.Enable()
+			}
 		}
 	}
 
@@ -245,6 +252,23 @@ func (h *c05H) run() {
 		h.doneStorm(sp.DoneStorm)
 	}
 	h.launchCycle(1)
+	if len(sp.FailStart) > 0 {
+		h.setPhase("failstart")
+		for _, n := range sp.FailStart {
+			n := n
+			_ = h.driver("Enable:"+n, func() error { h.mods[n].Enable(); return nil })
+		}
+		_ = h.driver("ManageModules", modules.ManageModules) // start routine fails
+		_ = h.driver("ManageModules", modules.ManageModules) // started again, successfully
+		h.launchCycle(2)
+		for _, n := range sp.FailStart {
+			for _, it := range h.mspec[n].Items {
+				if it.Settled && (it.FromStart || it.FromPrep) && !h.lat.wait("item.begin|"+it.ID, 10*time.Second) {
+					h.note("item %s of the failed start attempt had not begun after 10s", it.ID)
+				}
+			}
+		}
+	}
 
 	if sp.WaitHit != "" {
 		if !h.lat.wait(sp.WaitHit, 5*time.Second) {
@@ -294,6 +318,11 @@ func (h *c05H) prepFn(ms *c05Mod) error {
 		}
 	}
 	m.RegisterEvent("p4ev", true)
+	for _, it := range ms.Items {
+		if it.FromPrep {
+			h.launch(it)
+		}
+	}
 	return nil
 }
 
@@ -338,8 +367,21 @@ func (h *c05H) startFn(ms *c05Mod) error {
 			h.launch(it)
 		}
 	}
+	if cyc == 1 && contains(h.spec.FailStart, ms.Name) {
+		h.log.Rec("end", ms.Name, "start", map[string]any{"cycle": cyc, "fail": true})
+		return errors.New("harness start error (first attempt)")
+	}
 	h.log.Rec("end", ms.Name, "start", map[string]any{"cycle": cyc})
 	return nil
+}
+
+func contains(l []string, x string) bool {
+	for _, y := range l {
+		if y == x {
+			return true
+		}
+	}
+	return false
 }
 
 func (h *c05H) stopFn(ms *c05Mod) error {
@@ -575,7 +617,7 @@ func (h *c05H) launchCycle(cyc int) {
 						h.launch(it)
 					}
 				}()
-			case it.FromStart:
+			case it.FromStart || it.FromPrep:
 				if it.Settled {
 					settled = append(settled, it) // only waited for
 				}
@@ -596,7 +638,7 @@ func (h *c05H) launchCycle(cyc int) {
 		}
 	}
 	for _, it := range settled {
-		if !it.FromStart {
+		if !it.FromStart && !it.FromPrep {
 			h.launch(it)
 		}
 	}
